@@ -39,6 +39,12 @@ def run(chk):
         return rc
     distinct = set()
 
+    # regression corpus (corpus/C02/*.txt and --replay FILE: raw harness lines) runs first
+    extra = A.load_corpus("C02")
+    if getattr(chk, "replay", None):
+        extra = [l.split("harness_line:", 1)[-1].strip().strip('",') for l in open(chk.replay)
+                 if ("do " in l or "start " in l or "stress " in l) and "replay_cmd" not in l]
+    verdicts(chk, A.run_lines(chk, build, extra, "C02"), "corpusfile", distinct)
     res = A.run_scenarios(chk, build, A.CORPUS, "C02c")
     verdicts(chk, res, "corpus", distinct)
     chk.coverage["samples"].append(json.loads(A.describe(res[2])))
@@ -69,7 +75,7 @@ def run(chk):
     specs = []
     for i in range(n_st):
         senders = chk.rng.choice([2, 4, 6, 8])
-        per = chk.rng.choice([10, 25, 40])
+        per = chk.rng.choice([4, 8, 15])
         after = chk.rng.randrange(0, senders * per)
         specs.append((senders, per, after, i % 3))
     sres = A.run_stress(chk, build, specs, "C02")
@@ -89,7 +95,7 @@ def run(chk):
         "exhaustive: every interleaving of {start_i, release_i} of 1..3 sender threads parked inside the send path with "
         "atomic blocks (un-gated sends, stop, kill, drain, wrong-typed send, failing handler, self-sending handler); "
         "random: seeded structured scenarios (up to 3 parked threads, handler scripts with self-sends / drain / stop / kill, "
-        "re-entrant sends from box_message, wrong type, failing box/handler); stress: 2..8 uncontrolled OS threads x 10..40 "
+        "re-entrant sends from box_message, wrong type, failing box/handler); stress: 2..8 uncontrolled OS threads x 4..15 "
         "messages with a racing drain / stop / nothing (oracle only; mode 2 checks exactly-once while alive). "
         "non-trivial = at least two sends; distinct = distinct scenario texts. Every controlled scenario: implementation "
         "event log == model event log, and check_C02 on the implementation's log")
